@@ -380,6 +380,8 @@ def emit_cpp(d, cfg, opts=None, fe="functor"):
     elif b11: L.append("#define VCFG_BACK11 1")
     else: L.append("#define VCFG_BACK 1")
     if fct: L.append("#define VCFG_FCT 1")
+    vis = (not mp11) and fe == "functor"          # back / back11: polymorphic base state with an accept() for visit_current_states / get_state_by_id
+    if vis: L.append("#define VCFG_VIS 1")
     if d.serial and not mp11: L.append("#define VCFG_SER 1")
     L.append('#include "verif_rt.hpp"')
     L.append("using namespace vrt; using namespace boost::msm::front;")
@@ -526,6 +528,12 @@ def emit_cpp(d, cfg, opts=None, fe="functor"):
         for s in subs:
             L.append("  if (sub_active<M_%s,%s >(f)) { o << \",\"; dump_st_%s(f.template get_state<%s&>(), o); }" % (mn, subT(s), s, subT(s)))
         L.append("}")
+        if vis:
+            # get_state_by_id for the id of every region: the name of the state object the back-end hands out
+            L.append("static void dump_gs_%s(M_%s& f, std::ostream& o) { o << \"\\\"%s\\\":[\"; for (int k = 0; k < M_%s::nr_regions::value; k++) { const VBase* b = f.get_state_by_id(f.current_state()[k]); o << (k ? \",\" : \"\") << \"\\\"\" << (b && b->vsid() >= 0 ? SNAME[b->vsid()] : \"?\") << \"\\\"\"; } o << \"]\";" % (mn, mn, mn, mn))
+            for s in subs:
+                L.append("  if (sub_active<M_%s,%s >(f)) { o << \",\"; dump_gs_%s(f.template get_state<%s&>(), o); }" % (mn, subT(s), s, subT(s)))
+            L.append("}")
         L.append("static void dump_q_%s(M_%s& f, std::ostream& o) { o << \"\\\"%s\\\":\";" % (mn, mn, mn))
         if mp11:
             L.append('  o << "[" << f.pending() << "]";')
@@ -561,12 +569,16 @@ def emit_cpp(d, cfg, opts=None, fe="functor"):
         L.append('static std::string gen_isa(Top& t) { std::ostringstream o; o << "[" << %s << "]"; return o.str(); }' % terms)
         # active-state visitor (default mode: active states, recursive): names in visiting order
         L.append('static std::string gen_vis(Top& t) { std::ostringstream o; o << "["; bool first = true; t.visit([&](auto& st) { o << (first ? "" : ",") << "\\"" << SNAME[std::remove_reference_t<decltype(st)>::verif_sid] << "\\""; first = false; }); o << "]"; return o.str(); }')
+    elif vis:
+        L.append('static std::string gen_isa(Top&) { return "[]"; }')
+        # visit_current_states: per region the active state, a submachine state followed by its own active states
+        L.append('static std::string gen_vis(Top& t) { VVis v; t.visit_current_states(boost::ref(v)); std::ostringstream o; o << "["; for (size_t k = 0; k < v.seen.size(); k++) o << (k ? "," : "") << "\\"" << (v.seen[k] >= 0 ? SNAME[v.seen[k]] : "?") << "\\""; o << "]"; return o.str(); }')
     else:
         L.append('static std::string gen_isa(Top&) { return "[]"; }')
-        L.append('static std::string gen_vis(Top&) { return "[]"; }')
+        L.append('static std::string gen_vis(Top&) { return "[\\"-\\"]"; }')
     L.append("static void gen_stamp(Top& t, int i) { stamp_%s(t, i); }" % d.root)
-    L.append('static void gen_dump(Top& t, std::ostream& o) { o << "\\"st\\":{"; dump_st_%s(t, o); o << "},\\"q\\":{"; dump_q_%s(t, o); o << "},\\"dt\\":{"; dump_dt_%s(t, o); o << "},\\"isa\\":" << gen_isa(t) << ",\\"vis\\":" << gen_vis(t) << ",\\"fl\\":" << flags_of(t); }'
-             % (d.root, d.root, d.root))
+    L.append('static void gen_dump(Top& t, std::ostream& o) { o << "\\"st\\":{"; dump_st_%s(t, o); o << "},\\"q\\":{"; dump_q_%s(t, o); o << "},\\"dt\\":{"; dump_dt_%s(t, o); o << "},\\"isa\\":" << gen_isa(t) << ",\\"vis\\":" << gen_vis(t) << ",\\"gs\\":{"; %s o << "},\\"fl\\":" << flags_of(t); }'
+             % (d.root, d.root, d.root, ("dump_gs_%s(t, o);" % d.root) if vis else ""))
     if mp11:
         L.append("static long gen_drain(Top& t, bool single) { return (long)(single ? t.process_event_pool(1) : t.process_event_pool()); }")
     else:
